@@ -55,6 +55,50 @@ pub struct Case {
     pub strs: Vec<Vec<u32>>,
     pub nums: Vec<u64>,
     pub extra: Value,
+    /// address of the first string modulo 16 when the case came from a *placed* family
+    /// (`run_family_placed`); `None` = wherever the allocator put it (16-aligned in practice)
+    pub align: Option<u8>,
+}
+
+thread_local! {
+    static PLACE: std::cell::Cell<Option<u8>> = const { std::cell::Cell::new(None) };
+}
+
+/// A string held at a chosen address residue modulo 16: what a sub-slice of a larger buffer,
+/// a field of a protocol frame or an oddly placed literal looks like to the library. The bytes
+/// around it are 0xEF (never ASCII, never a complete character), so an over-read is visible.
+pub struct Placed {
+    buf: Vec<u8>,
+    off: usize,
+    len: usize,
+}
+
+impl Placed {
+    pub fn new(s: &str, k: u8) -> Placed {
+        let mut buf = vec![0xEFu8; s.len() + 48];
+        let base = buf.as_ptr() as usize;
+        let off = 16 + ((k as usize % 16) + 16 - (base % 16)) % 16;
+        buf[off..off + s.len()].copy_from_slice(s.as_bytes());
+        let p = Placed { buf, off, len: s.len() };
+        debug_assert_eq!(p.as_str().as_ptr() as usize % 16, k as usize % 16);
+        p
+    }
+    pub fn as_str(&self) -> &str {
+        std::str::from_utf8(&self.buf[self.off..self.off + self.len]).expect("placed string")
+    }
+}
+
+impl PartialEq for Placed {
+    fn eq(&self, o: &Placed) -> bool {
+        self.as_str() == o.as_str()
+    }
+}
+
+impl std::ops::Deref for Placed {
+    type Target = str;
+    fn deref(&self) -> &str {
+        self.as_str()
+    }
 }
 
 impl Case {
@@ -64,6 +108,7 @@ impl Case {
             strs: vec![],
             nums: vec![],
             extra: Value::Null,
+            align: PLACE.with(|p| p.get()),
         }
     }
     pub fn s(mut self, s: &str) -> Case {
@@ -83,7 +128,10 @@ impl Case {
         self
     }
     pub fn to_json(&self) -> Value {
-        json!({"op": self.op, "strs": self.strs, "nums": self.nums, "extra": self.extra})
+        match self.align {
+            Some(k) => json!({"op": self.op, "strs": self.strs, "nums": self.nums, "extra": self.extra, "align": k}),
+            None => json!({"op": self.op, "strs": self.strs, "nums": self.nums, "extra": self.extra}),
+        }
     }
     pub fn from_json(v: &Value) -> Option<Case> {
         Some(Case {
@@ -105,13 +153,17 @@ impl Case {
                 .filter_map(|n| n.as_u64())
                 .collect(),
             extra: v.get("extra").cloned().unwrap_or(Value::Null),
+            align: v.get("align").and_then(|a| a.as_u64()).map(|a| a as u8),
         })
     }
-    pub fn str_at(&self, i: usize) -> String {
-        self.strs
+    /// the i-th string of the case, at the address residue the case was found at
+    pub fn str_at(&self, i: usize) -> Placed {
+        let s: String = self
+            .strs
             .get(i)
             .map(|v| v.iter().filter_map(|c| char::from_u32(*c)).collect())
-            .unwrap_or_default()
+            .unwrap_or_default();
+        Placed::new(&s, self.align.unwrap_or(0))
     }
     pub fn size(&self) -> usize {
         self.strs.iter().map(|s| s.len()).sum::<usize>()
@@ -376,20 +428,26 @@ pub const PUMP_LENGTHS_LONG: [usize; 8] = [127, 128, 129, 255, 256, 257, 1023, 1
 /// Every ASCII character at every offset of an otherwise plain ASCII string whose length is
 /// around a multiple of 8 (word-at-a-time / chunked fast paths)
 pub fn ascii_blocks() -> Vec<String> {
+    ascii_blocks_with('a')
+}
+
+/// `ascii_blocks` over a chosen filler character (a lower-case letter, a digit: what surrounds
+/// the odd character decides whether a range test done on a whole word borrows or carries)
+pub fn ascii_blocks_with(filler: char) -> Vec<String> {
     let mut out = Vec::new();
     for total in [7usize, 8, 9, 15, 16, 17, 24, 25, 32, 33] {
         for pos in 0..total {
             for x in 0u8..128 {
                 let mut s = String::with_capacity(total);
                 for i in 0..total {
-                    s.push(if i == pos { x as char } else { 'a' });
+                    s.push(if i == pos { x as char } else { filler });
                 }
                 out.push(s);
                 // the same character twice in a row, straddling every offset (block boundaries)
                 if pos + 1 < total {
                     let mut d = String::with_capacity(total);
                     for i in 0..total {
-                        d.push(if i == pos || i == pos + 1 { x as char } else { 'a' });
+                        d.push(if i == pos || i == pos + 1 { x as char } else { filler });
                     }
                     out.push(d);
                 }
@@ -397,6 +455,70 @@ pub fn ascii_blocks() -> Vec<String> {
         }
     }
     out
+}
+
+/// Alphabet symbols inside a plain ASCII filler: x at every byte offset, and x followed `gap`
+/// filler bytes later by y, for all x, y of the alphabet, in strings long enough to have an
+/// unaligned head, an aligned body and a tail at every placement. This is the shape a search
+/// that skips "uninteresting" bytes a word at a time, and resumes after a rejected candidate,
+/// gets wrong.
+pub fn sparse_blocks(sigma: &[char], tier: Tier) -> Vec<String> {
+    let totals: &[usize] = tier.pick(&[17, 26, 33], &[16, 17, 24, 26, 33, 40, 41]);
+    let gaps: &[usize] = tier.pick(&[0, 1, 2, 3, 5], &[0, 1, 2, 3, 4, 5, 6, 7, 9]);
+    let mut out = Vec::new();
+    for &total in totals {
+        for pos in 0..total {
+            for &x in sigma {
+                let mut s = String::with_capacity(total + 8);
+                for _ in 0..pos {
+                    s.push('a');
+                }
+                s.push(x);
+                let tail = total.saturating_sub(pos + 1);
+                let mut single = s.clone();
+                for _ in 0..tail {
+                    single.push('a');
+                }
+                out.push(single);
+                for &gap in gaps {
+                    if gap > tail {
+                        continue;
+                    }
+                    for &y in sigma {
+                        let mut t = s.clone();
+                        for _ in 0..gap {
+                            t.push('a');
+                        }
+                        t.push(y);
+                        for _ in 0..(tail - gap) {
+                            t.push('a');
+                        }
+                        out.push(t);
+                    }
+                }
+            }
+        }
+    }
+    out
+}
+
+/// The structural families every string-level check runs on top of its tree and sweep: pumped
+/// runs, ASCII blocks over two fillers and sparse blocks over the check's alphabet - each at
+/// every placement of the tier - plus the long pumped runs (unplaced).
+pub fn run_structural<F>(sigma: &[char], tier: Tier, f: F) -> Stats
+where
+    F: Fn(&str, &mut Stats) + Sync,
+{
+    let mut placed = pumped(sigma, &PUMP_LENGTHS);
+    placed.extend(ascii_blocks_with('a'));
+    placed.extend(ascii_blocks_with('0'));
+    placed.extend(sparse_blocks(sigma, tier));
+    let long = pumped(&sigma[..sigma.len().min(6)], &PUMP_LENGTHS_LONG);
+    let mut st = run_family_placed(&placed, &placements(tier), &f);
+    st.merge(run_family(&long, &f));
+    st.add("family:placed_strings", placed.len() as u64);
+    st.add("family:placements", placements(tier).len() as u64);
+    st
 }
 
 /// "Same buffer" histories: every ordered pair (A, B) of distinct strings of equal byte length
@@ -483,6 +605,44 @@ where
         total.merge(s);
     }
     total
+}
+
+/// Run `f` over a family of strings, each presented at every address residue in `aligns`
+/// (modulo 16) as a sub-slice of a larger buffer: word-at-a-time and SIMD fast paths split
+/// their argument into an unaligned head, aligned body and tail that depend on the address.
+pub fn run_family_placed<F>(strings: &[String], aligns: &[u8], f: F) -> Stats
+where
+    F: Fn(&str, &mut Stats) + Sync,
+{
+    let shards: Vec<Stats> = strings
+        .par_chunks(64)
+        .map(|chunk| {
+            let mut st = Stats::default();
+            for s in chunk {
+                for &k in aligns {
+                    st.states += 1;
+                    st.transitions += 1;
+                    let p = Placed::new(s, k);
+                    PLACE.with(|c| c.set(Some(k)));
+                    f(p.as_str(), &mut st);
+                    PLACE.with(|c| c.set(None));
+                }
+            }
+            st
+        })
+        .collect();
+    let mut total = Stats::default();
+    for s in shards {
+        total.merge(s);
+    }
+    total
+}
+
+pub fn placements(tier: Tier) -> Vec<u8> {
+    match tier {
+        Tier::Quick => (0..8).collect(),
+        Tier::Thorough => (0..16).collect(),
+    }
 }
 
 /// Every scalar value, in order, chunked for the thread pool.
@@ -675,7 +835,16 @@ fn rust_lit(cps: &[u32]) -> String {
 /// a plain unit test that replays the case without the explorer (best effort, per operation)
 fn unit_test_for(v: &Violation) -> String {
     let c = &v.case;
-    let s0 = c.strs.first().map(|s| rust_lit(s)).unwrap_or_else(|| "\"\"".into());
+    let mut s0 = c.strs.first().map(|s| rust_lit(s)).unwrap_or_else(|| "\"\"".into());
+    let mut prelude = String::new();
+    if let Some(k) = c.align.filter(|k| k % 16 != 0) {
+        // the case depends on where the string lies in memory: rebuild that placement
+        prelude = format!(
+            "let text = {};\n    let mut buf = vec![0xEFu8; text.len() + 48];\n    let off = 16 + ({} + 16 - buf.as_ptr() as usize % 16) % 16;\n    buf[off..off + text.len()].copy_from_slice(text.as_bytes());\n    let placed = std::str::from_utf8(&buf[off..off + text.len()]).unwrap(); // address % 16 == {}\n    ",
+            s0, k, k
+        );
+        s0 = "placed".into();
+    }
     let s1 = c.strs.get(1).map(|s| rust_lit(s)).unwrap_or_else(|| "\"\"".into());
     let prof = c.extra.as_str().map(|s| s.to_string()).or_else(|| c.extra.get(0).and_then(|x| x.as_str()).map(|s| s.to_string())).unwrap_or_default();
     let body = match c.op.as_str() {
@@ -690,7 +859,8 @@ fn unit_test_for(v: &Violation) -> String {
         _ => return String::new(),
     };
     format!(
-        "use precis_core::profile::{{Profile, Rules}};\nuse precis_core::StringClass;\n#[test]\nfn replay() {{\n    {}\n    // expected: {}\n    // observed: {}\n    panic!(\"{{:?}}\", r);\n}}\n",
+        "use precis_core::profile::{{Profile, Rules}};\nuse precis_core::StringClass;\n#[test]\nfn replay() {{\n    {}{}\n    // expected: {}\n    // observed: {}\n    panic!(\"{{:?}}\", r);\n}}\n",
+        prelude,
         body,
         v.expected.replace('\n', " "),
         v.actual.replace('\n', " ")
